@@ -72,7 +72,11 @@ def run(chk, replay=None):
             broken = layout.break_program(r, g.text)
             t = layout.relayout(r, broken, crlf=(v == 1), comments=True)
             texts.append(t)
-    texts += ["", " ", "\n", "fn main() { let x: u8 = y; }", "fn main() {\n    let x: u8 = y;\n}\n", "fn main() {\r\n\tlet x: u8 = \r\n\t\ty;\r\n}\r\n",
+            # the same file starting with blank lines / blank-looking lines (line numbers and quoted lines must still be the file's)
+            lead = r.choice(["\n", "\n\n\n", "\r\n\r\n", " \n\t\n", "\n  \n// c\n"])
+            texts.append(lead + t)
+    texts += ["\n\nfn main() { let x: u8 = y; }", "\n\n\nfn main() {", "\r\n\r\nfn main() { let x: List<u8, 3> = list![]; }\r\n", "\n\nfn main() {\n    let x: u8 = 1\n}\n\n\n",
+              "\n\n\nfn main() { match true { true => (), true => (), }; }\n", "", " ", "\n", "fn main() { let x: u8 = y; }", "fn main() {\n    let x: u8 = y;\n}\n", "fn main() {\r\n\tlet x: u8 = \r\n\t\ty;\r\n}\r\n",
               "// é\nfn main() { let x: u8 = \U0001F388; }", "fn f() {}", "fn main() { }\nfn main() { }\n", "fn main() { let x: (u8, u8) = (1,\n 2,\n 3); }", "fn main() {"]
     el = ["(errmsg %s)" % quote(t) for t in texts]
     res = impl("span", el)
